@@ -29,7 +29,11 @@ def build(which=("acmed",)):
     if r.returncode != 0:
         log(r.stdout, r.stderr)
         return False
-    env = dict(os.environ, CARGO_NET_OFFLINE="true")
+    # the binaries the checks run are SHADOW/target/...: never let an inherited CARGO_TARGET_DIR
+    # (or RUSTFLAGS etc.) send the build elsewhere and leave a stale binary behind
+    env = dict(os.environ, CARGO_NET_OFFLINE="true", CARGO_TARGET_DIR=os.path.join(SHADOW, "target"))
+    for k in ("RUSTFLAGS", "CARGO_BUILD_TARGET", "CARGO_ENCODED_RUSTFLAGS"):
+        env.pop(k, None)
     for crate in which:
         prof = "sim" if crate == "acmed" else "ship"
         r = subprocess.run(["cargo", "build", "--offline", "--profile", prof, "-p", crate], cwd=SHADOW, env=env,
